@@ -16,7 +16,7 @@ RULE = ('[one free case in 200 is a batch of 2-4 million samples with short filt
         'seeds.')
 ASSUMPTIONS = ['PyWavelets (C implementation) is the reference',
                'linearity (C07) lets the operator comparison cover all inputs',
-               'float64 tolerance 1e-9*max(1,gain*max|x|); float32 tolerance '
+               'float64 tolerance 1e-11*max(1,gain*max|x|); float32 tolerance '
                '64*eps32*gain*max|x|']
 STRATA = {'thorough': 'every (wavelet, mode, dim) combination: 106 x 5 x 2',
           'quick': ''}
@@ -85,6 +85,8 @@ def _case(draw, unit):
                                           [0.5, 1.0], [1.0, -1.0], [3.0, 0.25]])),
         # the module had a previous life with another wavelet of the same length (load_state_dict in between)
         'reused': draw(st.integers(0, 4)) == 0,
+        # between construction and use, another module of the class is constructed for another wavelet and mode (and used once)
+        'later_sibling': draw(st.integers(0, 3)) == 0,
         'ctx': draw(st.sampled_from(core.GRAD_CTXS)),
         'rx': draw(core.recipe_strategy()),
         'k': draw(st.integers(0, 10**6)),
@@ -157,14 +159,39 @@ def ref_wavelet(case):
     if case.get('wave_row'):
         return (pywt.Wavelet(case['wave']), pywt.Wavelet(case['wave_row']))
     w = pywt.Wavelet(case['wave'])
-    a, b = case.get('fb_scale', [1.0, 1.0]) if case.get('wave_form') == 'tuple' else (1.0, 1.0)
+    # tuple form and object form: rescaled custom banks too. The custom pywt.Wavelet objects all carry the same name while
+    # their banks differ from case to case: a module built from an object uses that object's filters (seeded change C15-11)
+    a, b = case.get('fb_scale', [1.0, 1.0]) if case.get('wave_form') in ('tuple', 'object') else (1.0, 1.0)
     if (a, b) == (1.0, 1.0):
         return w
     return pywt.Wavelet('custom', filter_bank=[np.array(w.dec_lo) * a, np.array(w.dec_hi) * b,
                                                np.array(w.rec_lo) / a, np.array(w.rec_hi) / b])
 
 
+def later_sibling(case, cls, inverse=False):
+    """History step between construction and use: a module of the same class for another wavelet and another padding mode is
+    constructed and used once. A module computes with its own construction parameters, not the process's most recent ones."""
+    if not case.get('later_sibling'):
+        return
+    w2 = 'sym4' if case['wave'] != 'sym4' else 'db3'
+    m2 = 'zero' if case['mode'] != 'zero' else 'symmetric'
+    d = case['dim']
+    with dwtu.default_dtype(dwtu.tdt(case['dtype'])), torch.inference_mode(False):
+        if inverse:
+            core.libcall(lambda: cls(wave=w2, mode=m2)((torch.ones([1, case['C']] + [12] * d),
+                                                        [torch.ones([1, case['C']] + ([12] if d == 1 else [3, 12, 12]))])))
+        else:
+            core.libcall(lambda: cls(J=2, wave=w2, mode=m2)(torch.ones([1, case['C']] + [24] * d)))
+
+
 def _module(case):
+    m = _module0(case)
+    from pytorch_wavelets import DWT1DForward, DWTForward
+    later_sibling(case, DWT1DForward if case['dim'] == 1 else DWTForward)
+    return m
+
+
+def _module0(case):
     from pytorch_wavelets import DWT1DForward, DWTForward
     cls = DWT1DForward if case['dim'] == 1 else DWTForward
     msp = case.get('mode_spelling', case['mode'])
@@ -208,7 +235,8 @@ def _run_case(case):
     L = max(Ls)
     r.label('dim%d' % dim, mode, 'f32' if f32 else 'f64', 'wave_as_' + case.get('wave_form', 'name'),
             'mode_spelled_per' if case.get('mode_spelling') == 'per' else None,
-            'reused_module' if case.get('reused') and dwtu.sibling(w) else None)
+            'reused_module' if case.get('reused') and dwtu.sibling(w) else None,
+            'sibling_constructed_later' if case.get('later_sibling') else None)
     r.label('odd' if any(n % 2 for n in size) else None,
             'short<L' if any(n < L_ for n, L_ in zip(size, Ls)) else None,
             'separate_row_col_wavelets' if case.get('wave_row') else None,
@@ -226,7 +254,9 @@ def _run_case(case):
         r.label('after_other_precision_call')
         dwtu.other_precision_call(mod, [1, 1] + size, tdt)
     refw = wave_ref = ref_wavelet(case)
-    r.label('rescaled_filter_bank' if wave_ref is not None and case.get('wave_form') == 'tuple' and
+    r.label('rescaled_filter_bank' if wave_ref is not None and case.get('wave_form') in ('tuple', 'object') and
+            case.get('fb_scale', [1.0, 1.0]) != [1.0, 1.0] else None,
+            'custom_wavelet_object' if case.get('wave_form') == 'object' and not case.get('wave_row') and
             case.get('fb_scale', [1.0, 1.0]) != [1.0, 1.0] else None)
     reffn = dwtu.ref_wavedec if dim == 1 else dwtu.ref_wavedec2
 
@@ -264,7 +294,7 @@ def _run_case(case):
     A_impl = _flat(yl, yh)
     A_ref = dwtu.flat1(ref_yl, ref_yh)
     g = core.gain(A_ref.T)
-    tol = (64 * core.EPS32 if f32 else 1e-9) * max(1.0, g)
+    tol = (64 * core.EPS32 if f32 else core.TOL64) * max(1.0, g)
     okc, err = core.close(A_impl, A_ref, tol)
     r.metric('operator_abs_err_f32' if f32 else 'operator_abs_err_f64', err)
     if not okc:
@@ -303,7 +333,7 @@ def _run_case(case):
     # g comes from the extracted columns: with a column subset it can underestimate the operator norm, so the scale is
     # never smaller than the largest reference coefficient itself (thorough run, seed 3: 10 eps32 of a 2.6e5 lowpass)
     scale2 = max(g * core.maxabs(x), core.maxabs(y_ref), 1e-300)
-    tol2 = (64 * core.EPS32 if f32 else 1e-9) * scale2
+    tol2 = (64 * core.EPS32 if f32 else core.TOL64) * scale2
     okc, err = core.close(y_impl, y_ref, tol2)
     r.metric('dense_rel_err', err / scale2)
     if not okc:
